@@ -169,6 +169,11 @@ def worker_main(prop, tier, seed, shard, nshards, out):
     try:
         if hasattr(mod, "setup"):
             mod.setup(ctx)
+        if shard == 0:
+            # committed witnesses (known findings, fixed defects): always re-run, deterministic
+            wit = [json.loads(p.read_text())["case"] for p in sorted((VERIF / "witnesses").glob(f"{prop}-*.json"))]
+            ctx.count("witness_cases", len(wit))
+            run_cases(ctx, mod, wit)
         run_cases(ctx, mod, mod.gen_cases(ctx))
         if hasattr(mod, "finish"):
             mod.finish(ctx)
